@@ -47,15 +47,23 @@ def root_of(f, fl, l):
 
 
 def bool_edges(f, call_bb, t):
-    """(true_target, false_target) of the switch that tests a bool call result."""
+    """(true_target, false_target, switch_block) of the switch that tests a bool call result
+    (directly or through one `!`)."""
     nb = t.get("target")
     if nb is None:
         return None
     blk = f.blocks[nb]
     tt = blk["t"]
-    if tt["k"] == "switch" and op_local(tt["discr"]) == t["dest"]["l"]:
-        arms = dict((v, g) for v, g in tt["arms"])
-        return (tt["otherwise"] if 0 in arms else arms.get(1), arms.get(0, tt["otherwise"]), nb)
+    if tt["k"] != "switch":
+        return None
+    dl = op_local(tt["discr"])
+    arms = dict((v, g) for v, g in tt["arms"])
+    t_true, t_false = (tt["otherwise"] if 0 in arms else arms.get(1)), arms.get(0, tt["otherwise"])
+    if dl == t["dest"]["l"]:
+        return (t_true, t_false, nb)
+    for s in blk["s"]:
+        if s["pl"]["l"] == dl and s["rv"]["k"] == "un" and s["rv"]["op"] == "Not" and op_local(s["rv"]["a"]) == t["dest"]["l"]:
+            return (t_false, t_true, nb)      # negated: the switch's false edge is the call's true result
     return None
 
 
@@ -97,8 +105,17 @@ def check_guarded_insert(prog, R, path, what):
             dominated = ibb in f.reachable(0) and ibb not in f.reachable(0, avoid_edges=[(swb, false_t)])
             if same and true_only_err and dominated:
                 guard = (cbb, ct)
+        if guard is None:
+            # idiom `if !set.insert(x) { return Err(..) }`: insert reports presence itself
+            be = bool_edges(f, ibb, it)
+            if be:
+                newly, present, swb = be
+                present_reach = f.reachable(present, avoid=[newly])
+                if (present_reach & errb) and not (present_reach & okb):
+                    guard = (ibb, it)
         R.check(guard is not None, "R10.a", key, f.loc(ibb),
-                "auto: insert is dominated by the false edge of contains() on the same set and value; the true edge only returns Err",
+                "auto: insert is dominated by the false edge of contains() on the same set and value (or its own `already present` "
+                "result is tested); that edge only returns Err",
                 "%s inserts into its seen-set without first rejecting an element that is already present (%s would no longer be "
                 "rejected; for inline functions the expansion would not terminate)" % (path, what), fn=path)
     R.floor("R10.a", "%s guarded inserts" % path.rsplit("::", 1)[-1], n, 1, path)
